@@ -227,6 +227,17 @@ func c12Configs(tier string) []*X2Config {
 					c.Initial = initialPopulation()
 				}
 				res = append(res, c)
+				if count == 1 && !initial {
+					// the same with saves whose write to the store fails: whatever such a save did to the runner state, the
+					// next save that succeeds leaves API, store and log directories in agreement
+					f := *c
+					f.Name += " with failing saves"
+					f.SaveFail = true
+					f.Reload = false
+					f.Cancel = false
+					f.DefsOverride = []*definitionPipelinesDef{full}
+					res = append(res, &f)
+				}
 			}
 		}
 	}
